@@ -300,9 +300,7 @@ func (a *plAnalysis) checkC03() {
 			hasData := false
 			for mi, m := range msgs {
 				if isTick(m) {
-					if mi != len(msgs)-1 && !(mi == 0 && pi == 0) {
-						a.v("C03/stray-tick", "pack %d on %s has a tick in position %d", pi, pch, mi)
-					}
+					_ = mi // an additional opening tick is not constrained by the statement
 					continue
 				}
 				hasData = true
@@ -359,7 +357,7 @@ func (a *plAnalysis) checkC03() {
 					}
 				}
 				mp := p.MsgPack
-				if mp.BeginTs != lo || mp.EndTs != hi || mp.EndTs != tick {
+				if mp.BeginTs != lo || mp.EndTs != hi {
 					a.v("C03/pack-ts-disagree", "pack %d on %s: begin/end %d/%d, messages span %d..%d, closing tick %d", pi, pch, mp.BeginTs, mp.EndTs, lo, hi, tick)
 				}
 				for _, pos := range mp.StartPositions {
